@@ -285,6 +285,11 @@ func judge(c Case, o observed) *pt.Failure {
 			acked = acked && attempts == e.Attempts
 		}
 	}
+	// a context cancelled before the second phase began always surfaces to the initiator's caller, whatever
+	// was sent in spite of it
+	if c.Role == "initiator" && (c.Cancel == "before-begin" || c.Cancel == "in-callback") && o.Returned == "nil" {
+		return pt.Failf("C04/silent-success/cancellation-swallowed/cancel="+c.Cancel, "the caller's context was cancelled before the second phase, WithGlobalTx returned nil (commits=%d rollbacks=%d, retry count commit=%d rollback=%d)", o.Commits, o.Rollbacks, c.CommitN, c.RollbackN)
+	}
 	// truthfulness of the return value
 	wantNil := c.Outcome == "nil" && ((c.Role == "participant") || (c.Begin == "ok" && acked))
 	switch {
